@@ -11,10 +11,12 @@ def main():
     prop, src = sys.argv[1], sys.argv[2].rstrip("/")
     tier = sys.argv[4] if len(sys.argv) > 4 and sys.argv[3] == "--tier" else "quick"
     variant = os.path.basename(src)
-    sid = "%s-%s" % (prop, variant)
+    sid = "%s-%s" % (prop, variant) if not variant.startswith(prop) else variant
     wt = "/tmp/seedwt-%s" % sid
     patch = os.path.join(src, "patch.diff")
     meta = json.load(open(os.path.join(src, "meta.json"))) if os.path.exists(os.path.join(src, "meta.json")) else {}
+    if "what_i_ran" in meta:
+        meta = {"summary": meta.get("summary"), "needs_to_manifest": meta.get("needs_to_manifest"), "files_changed": meta.get("files_changed")}
     ran = {}
     assert sh("git -C /repo diff --quiet")[0] == 0, "/repo dirty"
     sh("git -C /repo worktree remove --force %s" % wt)
@@ -23,7 +25,9 @@ def main():
         env = dict(os.environ, PYTHONPATH=wt)
         rc, out = sh("/venv/bin/python demo.py" if False else "/venv/bin/python %s/demo.py" % src, cwd=wt, env=env, timeout=900)
         ran["demo_unpatched_exit"] = rc
-        rc, out = sh("git apply %s" % patch, cwd=wt); assert rc == 0, out
+        rc, out = sh("git apply %s" % patch, cwd=wt)
+        if rc != 0:
+            print(sid, "PATCH-DOES-NOT-APPLY", out[:200]); return
         rc, out = sh("/venv/bin/python -c 'import ascmhl; print(ascmhl.__file__)'", cwd=wt, env=env)
         assert wt in out, out
         rc, out = sh("/venv/bin/python -m pytest -q -p no:cacheprovider --timeout=900 2>&1 | tail -3", cwd=wt, env=env, timeout=1800)
@@ -38,7 +42,10 @@ def main():
     confirmed = ran.get("tests_pass") and ran.get("demo_patched_exit") == 1 and ran.get("demo_unpatched_exit") == 0
     ran["confirmed"] = bool(confirmed)
     # run the check against /repo with the patch applied
-    rc, out = sh("git -C /repo apply %s" % patch); assert rc == 0, out
+    rc, out = sh("git -C /repo apply %s" % patch)
+    if rc != 0:
+        print(sid, "PATCH-DOES-NOT-APPLY", out[:200]); return
+    ran["repo_commit"] = sh("git -C /repo log --format=%h -1")[1].strip()
     try:
         t = time.time()
         rc, out = sh("./check %s --tier %s" % (prop, tier), cwd="/verif", timeout=7200)
@@ -51,8 +58,9 @@ def main():
     ran["detected"] = ran["check_exit"] == 1
     dst = "/verif/seeded/%s" % sid
     os.makedirs(dst, exist_ok=True)
-    shutil.copy(patch, dst + "/patch.diff")
-    shutil.copy(os.path.join(src, "demo.py"), dst + "/demo.py")
+    if os.path.abspath(dst) != os.path.abspath(src):
+        shutil.copy(patch, dst + "/patch.diff")
+        shutil.copy(os.path.join(src, "demo.py"), dst + "/demo.py")
     json.dump({"property": prop, "id": sid, "summary": meta.get("summary"), "needs_to_manifest": meta.get("needs_to_manifest"),
                "files_changed": meta.get("files_changed"), "what_i_ran": ran}, open(dst + "/meta.json", "w"), indent=1)
     print(sid, "confirmed" if confirmed else "NOT-CONFIRMED", "check exit", ran["check_exit"], "DETECTED" if ran["detected"] else "MISSED",
